@@ -365,6 +365,22 @@ static pthread_t g_sup_thread;
 static int g_sup_run;
 static int g_sup_started;
 
+static double g_call_deadline; /* 0 = none; accessed atomically as bits */
+static const char *g_call_what = "";
+void vrt_call_begin(const char *what)
+{
+    g_call_what = what;
+    double d = vrt_wall() + 20.0 * vrt_san_scale;
+    uint64_t bits;
+    memcpy(&bits, &d, 8);
+    __atomic_store_n((uint64_t *)&g_call_deadline, bits, __ATOMIC_RELEASE);
+}
+void vrt_call_end(void)
+{
+    __atomic_store_n((uint64_t *)&g_call_deadline, 0, __ATOMIC_RELEASE);
+    vrt_progress();
+}
+
 void vrt_progress(void)
 {
     __atomic_fetch_add(&g_progress, 1, __ATOMIC_RELAXED);
@@ -464,6 +480,19 @@ static void *supervisor(void *arg)
             if (pnow != wd_last_progress) {
                 wd_last_progress = pnow;
                 wd_last_change = now;
+            }
+        }
+        {
+            uint64_t bits = __atomic_load_n((uint64_t *)&g_call_deadline, __ATOMIC_ACQUIRE);
+            double dl;
+            memcpy(&dl, &bits, 8);
+            if (bits && now > dl) {
+                char key[160];
+                snprintf(key, sizeof(key), "hang:call-did-not-return:%s", g_call_what);
+                vrt_violation(key, "%s did not return within %.0fs although nothing "
+                              "it could wait for exists", g_call_what, 20.0 * vrt_san_scale);
+                emit_result("call-hang", "violated");
+                _exit(1);
             }
         }
         if (now - g_t0 > g_watchdog_s && !__atomic_load_n(&g_finished, __ATOMIC_ACQUIRE)) {
